@@ -83,6 +83,9 @@ ReplaceChild(p, o, n, del) ==
   /\ On("replace_child") /\ (del => On("replace_delete") /\ Desc(K, o) \subseteq st.store)
   /\ Has(K[p], o) /\ st.name[n] = st.name[o] /\ (n = o \/ CanAttach(K, p, n))      \* n = o: the node stays attached to exactly one parent
   /\ Step(ReplaceChildF(st, p, o, n, del), O("replace_child", <<p, o, n, del>>, NULL, TRUE))
+ReplaceChildFailUnregistered(p, o, n) ==      \* replace with deletion of an old child that is itself no longer registered: the
+  /\ On("replace_delete") /\ Has(K[p], o) /\ st.name[n] = st.name[o] /\ CanAttach(K, p, n) /\ n # o /\ o \notin st.store      \* edit fails and,
+  /\ Stutter(O("replace_child", <<p, o, n, TRUE>>, NULL, FALSE))                                                            \* like every failing edit, changes nothing
 ReplaceChildFail(p, o, n) ==  \* name mismatch, or old child not listed: raises; child lists unchanged
   /\ On("replace_child_fail") /\ CanAttach(K, p, n) /\ n # o /\ (st.name[n] # st.name[o] \/ ~Has(K[p], o))
   /\ Stutter(O("replace_child", <<p, o, n, FALSE>>, NULL, FALSE))
@@ -124,7 +127,7 @@ Next == TLCGet("level") < MaxLevel /\
        \/ \E i \in {NOIDX} \cup (0..MaxN) : AddChild(p, c, i)
        \/ RemoveChild(p, c) \/ RemoveChildFail(p, c)
        \/ \E dir \in {"L", "R"}, sib \in BOOLEAN : Shift(p, c, dir, sib) \/ ShiftFail(p, c, dir, sib)
-       \/ \E n \in Nodes : (\E del \in BOOLEAN : ReplaceChild(p, c, n, del)) \/ ReplaceChildFail(p, c, n)
+       \/ \E n \in Nodes : (\E del \in BOOLEAN : ReplaceChild(p, c, n, del)) \/ ReplaceChildFail(p, c, n) \/ ReplaceChildFailUnregistered(p, c, n)
   \/ \E p \in Nodes :
        \/ RemoveChildren(p) \/ Copy(p)
        \/ \E ch \in BOOLEAN : Delete(p, ch)
